@@ -112,6 +112,13 @@ fn one<T: Uni + Encode + Decode + DecodeWithMemTracking>(cx: &mut Cx, name: &str
 			inputs.push(m);
 		}
 		prev = enc;
+		if desc == "TDuration" {
+			for n in [999_999_999u32, 1_000_000_000, 1_000_000_001, u32::MAX] {
+				let mut v = 5u64.to_le_bytes().to_vec();
+				v.extend_from_slice(&n.to_le_bytes());
+				inputs.push(v);
+			}
+		}
 		for inp in inputs {
 			if T::zst_seq() {
 				let mut s = &inp[..];
@@ -160,6 +167,18 @@ fn one<T: Uni + Encode + Decode + DecodeWithMemTracking>(cx: &mut Cx, name: &str
 					Err(_) => "PANIC".to_string(),
 				};
 				writeln!(cx.out, "{name}\tdecio\t{}\t{}", hex(&inp), tag).unwrap();
+				cx.n += 1;
+			}
+			#[cfg(feature = "opt")]
+			{
+				// the zero-copy entry point of the optional `bytes` integration
+				let rfb = catch_unwind(AssertUnwindSafe(|| parity_scale_codec::decode_from_bytes::<T>(bytes::Bytes::from(inp.clone())).ok().map(|v| hex(&v.encode()))));
+				let tag = match rfb {
+					Ok(Some(h)) => format!("ok\t{h}"),
+					Ok(None) => "err".to_string(),
+					Err(_) => "PANIC".to_string(),
+				};
+				writeln!(cx.out, "{name}\tdecfb\t{}\t{}", hex(&inp), tag).unwrap();
 				cx.n += 1;
 			}
 			cx.cases.push(format!("(GDec {} true {} {})", desc, blist(&inp), coq), format!("{name}\tdec\t1\t{}", hex(&inp)), !inp.is_empty());
